@@ -146,6 +146,38 @@ func Report[C any](t *testing.T, rec *ev.Recorder, check string, c C, f *Fail) b
 	return true
 }
 
+// CrashGuard, when set by a props package whose subject can kill the process
+// (assembly kernels), makes Run/Report record the case in flight in a file
+// before every evaluation. If the test binary dies with a fatal error the driver
+// turns that file into the replay file of a VIOLATION.
+var CrashGuard bool
+
+func inflightPath(rec *ev.Recorder) string {
+	return filepath.Join(rec.Env.PartsDir, fmt.Sprintf("inflight.%s.%d.json", rec.ID, rec.Env.Shard))
+}
+
+// MarkInflight records c as the case being evaluated (no-op unless CrashGuard).
+func MarkInflight[C any](rec *ev.Recorder, check string, c C) {
+	if !CrashGuard {
+		return
+	}
+	raw, err := json.Marshal(c)
+	if err != nil {
+		return
+	}
+	rf := replayFile{Property: rec.ID, Check: check, Message: "the test process died with a fatal error while evaluating this case", Key: "", Case: raw}
+	b, _ := json.Marshal(rf)
+	_ = os.MkdirAll(rec.Env.PartsDir, 0o755)
+	_ = os.WriteFile(inflightPath(rec), b, 0o644)
+}
+
+// ClearInflight removes the marker (call when a check finished normally).
+func ClearInflight(rec *ev.Recorder) {
+	if CrashGuard {
+		_ = os.Remove(inflightPath(rec))
+	}
+}
+
 // Run executes chk with rapid: n cases, deterministic seed. It returns false
 // when an unlisted violation was found (already reported).
 func Run[C any](t *testing.T, rec *ev.Recorder, chk Check[C], n int, salt uint64) bool {
@@ -162,6 +194,7 @@ func Run[C any](t *testing.T, rec *ev.Recorder, chk Check[C], n int, salt uint64
 	ok := t.Run(chk.Name, func(st *testing.T) {
 		rapid.Check(st, func(rt *rapid.T) {
 			c := chk.Gen(rt)
+			MarkInflight(rec, chk.Name, c)
 			f := Filter(rec, chk.Eval(c))
 			if f != nil && survey(rec, chk.Name, c, f) {
 				f = nil
@@ -172,6 +205,7 @@ func Run[C any](t *testing.T, rec *ev.Recorder, chk Check[C], n int, salt uint64
 			}
 		})
 	})
+	ClearInflight(rec)
 	if ok {
 		return true
 	}
